@@ -348,15 +348,6 @@ def showMatrixState (m : Matrix Nat) : String :=
     | .panic k => s!"panic({k})"
   s!"{m.rows}x{m.columns} len={m.data.length} use={used} data={showNats m.data}"
 
-/-- `Matrix::map_mut` / `map_mut_with_index` (and the `MatrixView` forms, row-major) with a closure
-    that panics on call `panicAt`: the elements visited before it are overwritten, the size and the
-    stored element count are untouched (the loop of `Survivor.mapLoop` over the row-major data,
-    each element paired with its position). -/
-def matrixMapPanic (m : Matrix Nat) (f : Nat → Nat → Nat → Nat) (panicAt : Option Nat) : Matrix.Res Nat :=
-  let indexed := List.zip m.data (List.range m.data.length)
-  let r := mapLoop (fun (p : Nat × Nat) => (f p.1 (p.2 / m.columns) (p.2 % m.columns), p.2)) panicAt indexed 0
-  ⟨{ m with data := r.1.map (·.1) }, if r.2 then some .explicit else none⟩
-
 def matrixClosureOp (m : Matrix Nat) (toks : List String) : Option (Matrix.Res Nat) :=
   match toks with
   | "map_mut" :: k :: p :: _ =>
